@@ -28,7 +28,16 @@ type cOp struct {
 	Keys     []string `json:"keys"`
 	TTLMs    []int    `json:"ttl_ms"` // per key (get/multi) or [0] for the helpers
 	Static   bool     `json:"static_ttl,omitempty"`
+	Statics  []bool   `json:"statics,omitempty"` // multi: per member (a mixed batch is rewritten differently by the client)
 	CancelUs int      `json:"cancel_us,omitempty"`
+}
+
+// staticAt says whether the member at pos is tagged ToStaticTTL.
+func (o cOp) staticAt(pos int) bool {
+	if o.Kind == "multi" && o.Statics != nil {
+		return pos >= 0 && pos < len(o.Statics) && o.Statics[pos]
+	}
+	return o.Static && (o.Kind == "get" || o.Kind == "multi" || o.Kind == "getrange")
 }
 
 type cExt struct {
@@ -39,10 +48,10 @@ type cExt struct {
 }
 
 type cPlan struct {
-	Tracking  string   `json:"tracking"` // optin optout bcast
-	Store     string   `json:"store"`    // lru adapter
+	Tracking  string   `json:"tracking"`      // optin optout bcast
+	Store     string   `json:"store"`         // lru adapter
 	FetchLats []int    `json:"fetch_lats_us"` // latency of the n-th cache fetch batch (cycled)
-	Initial   []string `json:"initial"`  // keys that exist at the start
+	Initial   []string `json:"initial"`       // keys that exist at the start
 	Callers   [][]cOp  `json:"callers"`
 	Ext       []cExt   `json:"ext,omitempty"`
 }
@@ -67,13 +76,13 @@ type cWrite struct {
 }
 
 type cRun struct {
-	Res      bubble.Result
-	Reads    []*cRead
-	Writes   []cWrite
-	Events   []fakeredis.Event
-	EpochMs  int64 // unix ms of virtual time 0
-	Pending  int
-	CloseOK  bool
+	Res     bubble.Result
+	Reads   []*cRead
+	Writes  []cWrite
+	Events  []fakeredis.Event
+	EpochMs int64 // unix ms of virtual time 0
+	Pending int
+	CloseOK bool
 }
 
 // mapCache is a SimpleCache over a map for NewSimpleCacheAdapter.
@@ -215,22 +224,35 @@ func cacheRun(t *testing.T, plan cPlan) (run cRun) {
 					}
 					pend.Store([2]int{ci, oi}, true)
 					start := clock.Us()
-					get := func(k string) rueidis.Cacheable {
+					getAt := func(k string, pos int) rueidis.Cacheable {
 						c := client.B().Get().Key(k).Cache()
-						if op.Static {
+						if op.staticAt(pos) {
 							c = c.ToStaticTTL()
 						}
 						return c
 					}
+					get := func(k string) rueidis.Cacheable { return getAt(k, 0) }
 					switch op.Kind {
 					case "get":
 						res := client.DoCache(ctx, get(op.Keys[0]), time.Duration(op.TTLMs[0])*time.Millisecond)
 						m, err := res.ToMessage()
 						record(ci, oi, 0, op.Keys[0], start, op.TTLMs[0], m, err)
+					case "getrange":
+						// a second cacheable command on the same key: GETRANGE k 0 -1 returns the whole value ("" when absent)
+						gr := client.B().Getrange().Key(op.Keys[0]).Start(0).End(-1).Cache()
+						if op.Static {
+							gr = gr.ToStaticTTL()
+						}
+						res := client.DoCache(ctx, gr, time.Duration(op.TTLMs[0])*time.Millisecond)
+						m, err := res.ToMessage()
+						if s, e := m.ToString(); err == nil && e == nil && s == "" {
+							err = rueidis.Nil
+						}
+						record(ci, oi, 0, op.Keys[0], start, op.TTLMs[0], m, err)
 					case "multi":
 						cts := make([]rueidis.CacheableTTL, len(op.Keys))
 						for i, k := range op.Keys {
-							cts[i] = rueidis.CT(get(k), time.Duration(op.TTLMs[i])*time.Millisecond)
+							cts[i] = rueidis.CT(getAt(k, i), time.Duration(op.TTLMs[i])*time.Millisecond)
 						}
 						for i, res := range client.DoMultiCache(ctx, cts...) {
 							m, err := res.ToMessage()
@@ -303,7 +325,11 @@ func cacheRun(t *testing.T, plan cPlan) (run cRun) {
 	return
 }
 
-func genCachePlan(rt *rapid.T) cPlan {
+func genCachePlan(rt *rapid.T) cPlan { return genCachePlanForms(rt, false) }
+
+// genCachePlanForms with forms=true also issues GETRANGE k 0 -1 (a second cache entry per key) and DoMultiCache batches
+// that mix ToStaticTTL and plain members; only checks whose oracle is per key and time (C06) use it.
+func genCachePlanForms(rt *rapid.T, forms bool) cPlan {
 	keys := []string{"k1", "k2", "k3", "k4"}
 	p := cPlan{
 		Tracking: rapid.SampledFrom([]string{"optin", "optin", "optout", "bcast"}).Draw(rt, "tracking"),
@@ -321,9 +347,13 @@ func genCachePlan(rt *rapid.T) cPlan {
 		no := rapid.IntRange(1, 6).Draw(rt, "ops")
 		ops := make([]cOp, no)
 		for i := range ops {
-			op := cOp{GapUs: rapid.IntRange(0, 6000).Draw(rt, "gap"), Kind: rapid.SampledFrom([]string{"get", "get", "get", "multi", "mgetcache", "docache-mget"}).Draw(rt, "kind")}
+			kinds := []string{"get", "get", "get", "multi", "mgetcache", "docache-mget"}
+			if forms {
+				kinds = []string{"get", "get", "getrange", "getrange", "multi", "multi", "mgetcache", "docache-mget"}
+			}
+			op := cOp{GapUs: rapid.IntRange(0, 6000).Draw(rt, "gap"), Kind: rapid.SampledFrom(kinds).Draw(rt, "kind")}
 			switch op.Kind {
-			case "get":
+			case "get", "getrange":
 				op.Keys = []string{rapid.SampledFrom(keys).Draw(rt, "key")}
 				op.TTLMs = []int{ttl()}
 				op.Static = rapid.IntRange(0, 4).Draw(rt, "static") == 0
@@ -333,6 +363,12 @@ func genCachePlan(rt *rapid.T) cPlan {
 				for k := 0; k < n; k++ {
 					op.Keys = append(op.Keys, rapid.SampledFrom(keys).Draw(rt, "key"))
 					op.TTLMs = append(op.TTLMs, ttl())
+				}
+				if forms && rapid.Bool().Draw(rt, "mixedStatic") {
+					op.Statics = make([]bool, n)
+					for k := range op.Statics {
+						op.Statics[k] = rapid.Bool().Draw(rt, "staticMember")
+					}
 				}
 			default:
 				n := rapid.IntRange(1, 5).Draw(rt, "n")
